@@ -3,14 +3,14 @@
 export GOFLAGS=-mod=mod GOPROXY=off GOSUMDB=off GOTOOLCHAIN=local GOWORK=off
 V=$(cd "$(dirname "$0")/.." && pwd)
 one() {
-  D=$(readlink -f "$1"); name=$(basename "$(dirname "$D")")/$(basename "$D")
+  D=$(readlink -f "$1"); name=$(basename "$(dirname "$(dirname "$D")")")/$(basename "$(dirname "$D")")/$(basename "$D"); case "$D" in */corpus/*|*/seeded/*) name=$(basename "$(dirname "$D")")/$(basename "$D");; esac
   S=$(mktemp -d /tmp/dvm-XXXXXX)
   rsync -a --exclude .git /repo/ "$S/repo/"
   if ! (cd "$S/repo" && patch -p1 -s --no-backup-if-mismatch < "$D" >/dev/null 2>&1); then echo "$name NOAPPLY"; rm -rf "$S"; return; fi
   if ! (cd "$S/repo" && go build ./... >/dev/null 2>&1); then echo "$name NOBUILD"; rm -rf "$S"; return; fi
   fired=""
-  for id in $("$V/bin/dverif" list | cut -d' ' -f1); do
-    if "$V/bin/dverif" check "$id" --repo "$S/repo" --out "$S/ev" -q 2>&1 | grep -q '^VIOLATION'; then fired="$fired $id"; fi
+  for id in $("${DVERIF:-$V/bin/dverif}" list | cut -d' ' -f1); do
+    if "${DVERIF:-$V/bin/dverif}" check "$id" --repo "$S/repo" --out "$S/ev" -q 2>&1 | grep -q '^VIOLATION'; then fired="$fired $id"; fi
   done
   echo "$name FIRED:$fired"
   rm -rf "$S"
